@@ -590,13 +590,13 @@ type enumC05 struct {
 
 func TestC05Enum(t *testing.T) {
 	vcore.RunEnum(t, vcore.Config{Property: "C05", Inflight: true,
-		Rule: "fault enumeration: instance A publishes key k (only copy), a peer B publishes k2; A is crashed at EVERY yield point (14) while it uploads a second change, restarted with the LMDB {kept, emptied}, with its own newest snapshot {downloadable, failing to load twice, followed by an undecodable newer blob, failing to load eight times while every other listing fails, only the instance's own snapshots failing to load forty times}; for emptied restarts also a second kill with the LMDB kept, at the first yield point or ten yields later (third life: an LMDB with data but not the data of its own snapshot); the application writes k' right after the restart; for emptied restarts additionally with storage_force_snapshot_interval = 1 ns (a periodic snapshot always overdue) x {the application writes k', writes nothing}; both loops run on; invariants as in TestC05Bucket after every bucket mutation; non-trivial = emptied restart"},
+		Rule: "fault enumeration: instance A publishes key k (only copy), a peer B publishes k2; A is crashed at EVERY yield point (14) while it uploads a second change, restarted with the LMDB {kept, emptied}, with its own newest snapshot {downloadable, failing to load twice, followed by an undecodable newer blob, failing to load eight times while every other listing fails, only the instance's own snapshots failing to load forty times, or reported as not existing twice}; for emptied restarts also a second kill with the LMDB kept, at the first yield point or ten yields later (third life: an LMDB with data but not the data of its own snapshot); the application writes k' right after the restart; for emptied restarts additionally with storage_force_snapshot_interval = 1 ns (a periodic snapshot always overdue) x {the application writes k', writes nothing}; both loops run on; invariants as in TestC05Bucket after every bucket mutation; non-trivial = emptied restart"},
 		func(yield func(enumC05) bool) {
 			for _, native := range []bool{true, false} {
 				for _, p := range loopYieldPoints {
 					for _, keep := range []bool{true, false} {
-						for _, own := range []string{"ok", "fail2", "corrupt-newest", "slow+listfail", "own-slow"} {
-							if own == "own-slow" && keep {
+						for _, own := range []string{"ok", "fail2", "corrupt-newest", "slow+listfail", "own-slow", "own-notexist"} {
+							if (own == "own-slow" || own == "own-notexist") && keep {
 								continue
 							}
 							if !yield(enumC05{Native: native, Point: p, Keep: keep, Own: own}) {
@@ -642,6 +642,10 @@ func TestC05Enum(t *testing.T) {
 				c.Ops = append(c.Ops, C05Op{Kind: "fault", Inst: 0, FKind: "load", Faults: []string{fault.Fail, fault.Fail}})
 			case "corrupt-newest":
 				c.Ops = append(c.Ops, C05Op{Kind: "corrupt-own", Inst: 0})
+			case "own-notexist":
+				// the instance's own snapshot is listed but "does not exist" at the first two download attempts
+				// (an eventually consistent bucket): transient, it is there at the third
+				c.Ops = append(c.Ops, C05Op{Kind: "fault", Inst: 0, FKind: "load-own", Faults: []string{fault.NotExist, fault.NotExist}})
 			case "own-slow":
 				// only the downloads of the instance's OWN snapshots fail, forty times in a row (everything else,
 				// e.g. the peer's snapshot, arrives at once): the instance waits for its own data for a long time
